@@ -1752,3 +1752,71 @@ Proof.
   - repeat constructor; eexists; (split; [reflexivity|]); repeat constructor; cbn; discriminate.
   - split; [vm_compute; discriminate|]. split; vm_compute; reflexivity.
 Qed.
+
+(* ------------------------------------------------------------------ *)
+(** * 7. Constants converted to float32 / float64: one rounding of the exact value *)
+
+Lemma round_zero t q : q_is_zero q = true -> round_t t q = Some (qz 0).
+Proof. unfold q_is_zero, round_t, round_q. intros ->. reflexivity. Qed.
+
+(** convertConst (and convertUntyped, conversion, assignment through it) on a float destination:
+    the exact rational is rounded once, to the format of the destination, as the specification
+    says ([g_repr]); stated for every rational whose rounded value is finite and not zero (a
+    negative constant that underflows becomes -0 in yaegi: region float-negzero) *)
+Lemma float_conv_single q t r :
+  is_float t = true -> round_t t q = Some r -> q_is_zero r = false ->
+  convert_const (CRat q) t = Ok (VM t (MF (FQ r))) /\ g_repr (GQ q) t = Some (GQ r).
+Proof.
+  intros Ht Hr Hz.
+  assert (Hq : q_is_zero q = false).
+  { destruct (q_is_zero q) eqn:E; [|reflexivity]. rewrite (round_zero t q E) in Hr. injection Hr as <-. discriminate Hz. }
+  split.
+  - unfold convert_const.
+    assert (is_boolean t = false /\ is_string t = false /\ is_signed t = false /\ is_unsigned t = false) as (-> & -> & -> & ->)
+      by (destruct t; try discriminate; auto).
+    cbn [c_tofloat c_floatval]. unfold fl_round. rewrite Hq, Hr. cbn [of_opt bind]. rewrite Hz. reflexivity.
+  - unfold g_repr.
+    assert (is_int t = false) as -> by (destruct t; try discriminate; reflexivity).
+    rewrite Ht, Hr. reflexivity.
+Qed.
+
+(** the same for an integer constant *)
+Lemma float_conv_single_int z t r :
+  is_float t = true -> round_t t (qz z) = Some r -> q_is_zero r = false ->
+  convert_const (CInt z) t = Ok (VM t (MF (FQ r))) /\ g_repr (GI z) t = Some (GQ r).
+Proof.
+  intros Ht Hr Hz.
+  assert (Hq : q_is_zero (qz z) = false).
+  { destruct (q_is_zero (qz z)) eqn:E; [|reflexivity]. rewrite (round_zero t _ E) in Hr. injection Hr as <-. discriminate Hz. }
+  split.
+  - unfold convert_const.
+    assert (is_boolean t = false /\ is_string t = false /\ is_signed t = false /\ is_unsigned t = false) as (-> & -> & -> & ->)
+      by (destruct t; try discriminate; auto).
+    cbn [c_tofloat c_floatval]. unfold fl_round. rewrite Hq, Hr. cbn [of_opt bind]. rewrite Hz. reflexivity.
+  - unfold g_repr.
+    assert (is_int t = false) as -> by (destruct t; try discriminate; reflexivity).
+    rewrite Ht, Hr. reflexivity.
+Qed.
+
+(** rounding twice (exact -> float64 -> float32) is a different function: 1 + 2^-24 + 2^-60 *)
+Definition q_mid : Q := 1152921573326323713 # 1152921504606846976.
+Definition double32 (q : Q) : option Q := match round64 q with Some r => round_t TFloat32 r | None => None end.
+
+Lemma double_rounding_differs :
+  round_t TFloat32 q_mid = Some (8388609 # 8388608) /\ double32 q_mid = Some (1 # 1)
+  /\ y_run (PExpr (EConv TFloat32 (EFloat q_mid))) = Printed [(TFloat32, OF (8388609 # 8388608))]
+  /\ g_run (PExpr (EConv TFloat32 (EFloat q_mid))) = Printed [(TFloat32, OF (8388609 # 8388608))]
+  /\ y_run (one_const true (Some TFloat32) (EFloat q_mid)) = Printed [(TFloat32, OF (8388609 # 8388608))]
+  /\ y_run (PVar (Some TFloat32) (EFloat q_mid)) = Printed [(TFloat32, OF (8388609 # 8388608))].
+Proof. vm_compute. repeat split. Qed.
+
+(** ... but a typed declaration whose initialiser is an expression keeps the go/constant value
+    under the declared type and converts it at its use through float64 (convertConstantValue):
+    const c float32 = (1 + 2^-24) + 2^-60 is 1 *)
+Definition w_decl_round : expr := EBin BAdd (EFloat (16777217 # 16777216)) (EFloat (1 # 1152921504606846976)).
+
+Lemma decl_double_rounding_refuted :
+  y_run (one_const true (Some TFloat32) w_decl_round) = Printed [(TFloat32, OF (1 # 1))]
+  /\ g_run (one_const true (Some TFloat32) w_decl_round) = Printed [(TFloat32, OF (8388609 # 8388608))]
+  /\ y_run (PExpr (EConv TFloat32 w_decl_round)) = g_run (PExpr (EConv TFloat32 w_decl_round)).
+Proof. vm_compute. repeat split. Qed.
